@@ -81,17 +81,21 @@ Init == /\ cur \in InitMaps /\ db = cur /\ ops = <<>> /\ nops = 0 /\ nsaves = 0
                  ELSE ""
 
 Mutate(kind, pk, r, ok, ret) ==
-  /\ nops < MaxOps /\ nops' = nops + 1
+  /\ nsaves < MaxSaves /\ nops < MaxOps /\ nops' = nops + 1
   /\ cur' = IF ok THEN [cur EXCEPT ![pk] = r] ELSE cur
   /\ ops' = IF ok THEN Append(ops, <<kind, pk, r>>) ELSE ops
   /\ UNCHANGED <<db, nsaves>>
   /\ Emit(IF kind = "Del" THEN [op |-> kind, pk |-> pk, ret |-> ret]
                           ELSE [op |-> kind, pk |-> pk, row |-> r, ret |-> ret])
 
-Add(pk, r)     == LET ok == cur[pk] = None IN Mutate("Add", pk, r, ok, IF ok THEN "ok" ELSE "dup")
+\* the reply every call must give
+AddRet(pk) == IF cur[pk] = None THEN "ok" ELSE "dup"
+ModRet(pk) == IF cur[pk] # None THEN "ok" ELSE "notfound"
+
+Add(pk, r)     == Mutate("Add", pk, r, AddRet(pk) = "ok", AddRet(pk))
 Replace(pk, r) == Mutate("Replace", pk, r, TRUE, "ok")
-Update(pk, r)  == LET ok == cur[pk] # None IN Mutate("Update", pk, r, ok, IF ok THEN "ok" ELSE "notfound")
-Del(pk)        == LET ok == cur[pk] # None IN Mutate("Del", pk, None, ok, IF ok THEN "ok" ELSE "notfound")
+Update(pk, r)  == Mutate("Update", pk, r, ModRet(pk) = "ok", ModRet(pk))
+Del(pk)        == Mutate("Del", pk, None, ModRet(pk) = "ok", ModRet(pk))
 
 \* failed calls are not journalled but count towards the bound MaxOps
 Save ==
